@@ -498,6 +498,11 @@ class Evaluator:
         if isinstance(op, ast.Add) and a.ty[0] == 'list' and b.ty[0] == 'list':
             return self.concat(state, a, b)
         if isinstance(op, ast.Mult) and a.ty[0] == 'list':
+            # [x] * n : n copies of x (only a one-element list is modelled); n <= 0 gives []
+            ln = z3.simplify(seq_len(a))
+            if z3.is_int_value(ln) and ln.as_long() == 1 and b.ty == T.INT:
+                n = z3.If(b.term > 0, b.term, z3.IntVal(0))
+                return mk_seq(a.ty, n, z3.K(z3.IntSort(), z3.simplify(seq_at(a, z3.IntVal(0)))))
             return self.unsupported(state, node, "list repetition")
         if a.ty == T.OPAQUE or b.ty == T.OPAQUE:
             raise Unsupported("arithmetic on abstracted value")
